@@ -1,5 +1,6 @@
 (* C10 — Gradient-based optimizers report consistent solutions and make progress.
-   Only statements + `exact`; proofs live in C10Proofs.v, the executable model in C10Model.v.
+   Only statements + `exact`; proofs live in C10Proofs.v, C10LsProofs.v, C10BfgsProofs.v, the executable model in
+   C10Model.v and C10LsModel.v.
 
    PROPERTY (properties.jsonl): after init and after every step the reported best value equals the objective
    at the reported best point, the point is finite and (box-constrained objectives) feasible; line-search
@@ -7,18 +8,16 @@
    budget; an optimizer saved after any number of steps and restored into a fresh instance continues with the
    same iterates.  Quantified over objectives, starts, optimizers, line searches, step counts, save points.
 
-   WHAT IS PROVED (model over exact rationals, objective = two arbitrary oracles f / grad, all dimensions,
-   all starting points, all step counts; no axioms):
+   WHAT IS PROVED (models over exact rationals, objective = two arbitrary oracles f / grad, all dimensions,
+   all starting points, all step counts; no axioms).  Part 1: backtracking (C10Model.v / C10Proofs.v):
      * C10_linesearch_state_consistent    value = f(point), derivative = grad(point) after init and every
          step of AbstractLineSearchOptimizer with the backtracking line search, for EVERY derived class
          (direction rule and model state are universally quantified: CG, BFGS, L-BFGS are instances).
      * C10_steepestdescent_state_consistent   the same for SteepestDescent (learning rate + momentum).
      * C10_backtracking_never_increases   one backtracking call along a non-ascent direction.
      * C10_linesearch_monotone_partial    every step of a whole run, for every direction rule that never
-         returns an ascent direction.  PARTIAL: the full statement ("every line-search method, every line search
-         type") would need (a) that CG/BFGS/L-BFGS directions are non-ascent - false for CG as coded (the
-         reset branch keeps the old direction, cg_dir "sic") and true for the quasi-Newton rules only in exact
-         arithmetic, (b) Dlinmin and WolfeCubic, which are not modelled.  Those are monitored on the C++.
+         returns an ascent direction (backtracking).  The hypothesis is false for CG as coded (the reset branch
+         keeps the old direction, cg_dir "sic"); it is DISCHARGED for BFGS below.
      * C10_steepest_descent_direction_monotone   instance without hypothesis (direction -gradient; this is
          also the first step of every line-search optimiser).
      * C10_box_feasible_partial, C10_box_feasible_slack_partial (the box widened by the 1e-13 slack of
@@ -28,20 +27,57 @@
          getBoxConstrainedDirection itself (dog-leg) is not modelled.  Satisfiable: proj_oracle_feasible.
      * C10_box_feasible_penalised_partial  one step, for objectives that report infeasible points as not
          better than feasible ones (hypothesis), any direction.
-     * C10_linesearch_saverestore_continues / C10_cg_saverestore_continues   the archived member list of
-         AbstractLineSearchOptimizer (+ m_count for CG) is the complete model state: restoring into ANY instance
-         and continuing gives the same iterates.  PARTIAL w.r.t. the property: BFGS/L-BFGS/Adam/Rprop member
-         lists are not modelled (monitored; C18 generates their field-coverage obligations).
+     * C10_linesearch_saverestore_continues / C10_cg_saverestore_continues / C10_bfgs_saverestore_continues   the
+         archived member list of AbstractLineSearchOptimizer (+ m_count for CG, + m_hessian for BFGS) is the complete
+         model state: restoring into ANY instance and continuing gives the same iterates.  PARTIAL w.r.t. the
+         property: L-BFGS/Adam/Rprop member lists are not modelled (monitored; C18 generates their obligations).
      * C10_steepestdescent_saverestore_continues   the member list of SteepestDescent::read/write (path, learning
          rate, momentum, derivative, point, value - as coded since the repair c36da89f of finding F16) is complete;
          the earlier list (path, rate, momentum) was not: steepestdescent_coded_restore_refuted in C10Proofs.v is
          a machine-checked counterexample.
+   Part 2: ALL THREE LINE SEARCHES (C10LsModel.v / C10LsProofs.v).  The model is the state handling of wolfecubic
+   (bracketing loop with its three exits, zoom loop with lo/hi bookkeeping, done / tolerance / iteration-limit exits,
+   the shared iteration counter, the final write-back test), of dlinmin (which of the trials becomes x, the final
+   fx < fp test, value := fp otherwise, the evalDerivative that follows) and of LineSearch::operator(); the numerical
+   choice of every trial step length (cubic interpolation + "sufficient progress" correction, Brent steps, golden
+   section bracketing, rounding of t *= 10) is an ORACLE.  Every theorem is for every oracle:
+     * C10_linesearch_call_consistent, C10_linesearch_state_consistent_all_types   value = f(point) and derivative =
+         grad(point) after one call / after init and every step, every derived class, all line-search types
+         (a constrained objective forces backtracking, as in init()).
+     * C10_linesearch_call_never_increases   wolfecubic and backtracking along a non-ascent direction with t0 >= 0;
+         C10_dlinmin_spec: dlinmin never returns a value above f(point) (no hypothesis) and is consistent even when
+         the incoming value is not.
+     * C10_linesearch_on_line (all types) / C10_linesearch_on_ray (wolfecubic, backtracking; oracle without negative
+         proposals).  dlinmin does NOT stay on the ray: C10_ex_dlinmin_steps_backward (model run; the C++ is run on
+         the same input by tools/c10.py: harness/c10_findings.txt).
+     * C10_wolfecubic_undefined_iff   the model returns None exactly where the C++ reads bracket/bracketf/bracketg
+         without having assigned them: after maxIter = 25 expansions that all pass the three bracketing tests (e.g. any
+         linear objective: C10_ex_wolfecubic_undefined_on_linear_objective) or a strong-Wolfe point found in expansion 25
+         with no decrease.  DEFECT of /repo, reported (harness/c10_findings.txt: the result depends on stack contents).
+         C10_linesearch_run_defined: runs are defined unless one of their calls is.
+     * C10_linesearch_monotone_all_types_partial   whole runs, all types, for direction rules without ascent directions.
+   Part 3: BFGS (bfgs_update / bfgs_dir in C10LsModel.v, C10BfgsProofs.v):
+     * C10_bfgs_update_symmetric (+ C10_bfgs_symmetry_is_entrywise), C10_bfgs_update_quadratic_form
+         (x'H+x = w'Hw + (s'x)^2/(y's), w = x - (s'x/y's) y), C10_bfgs_update_positive_definite (y's > 0),
+         C10_bfgs_reset_as_coded (y's < 1e-20: identity).
+     * C10_bfgs_direction_descent   after init and every step, all line-search types, every oracle: the matrix is symmetric
+         positive definite and g'd <= 0, g'd < 0 whenever g is not the zero vector (hypothesis: the gradient has the
+         dimension of the point).  C10_bfgs_monotone: every BFGS step is monotone - the hypothesis of
+         C10_linesearch_monotone_partial is gone for BFGS.  (Exact arithmetic: in floating point y's >= 1e-20 does not
+         protect against loss of definiteness by rounding; monitored.)
 
    WHAT IS ONLY COMPARED (tools/c10.py, every run): the extracted model against the C++ on generated dyadic
    quadratics (exact equality of point, value, derivative, direction, step length, last point/derivative/value,
-   CG counter) for a harness subclass of AbstractLineSearchOptimizer with direction -gradient, for CG, for the
-   first step of BFGS/L-BFGS (with and without box), and for SteepestDescent; tolerance 1e-9 after the first
-   inexact floating-point operation (CG's beta).
+   CG counter, line-search type, BFGS matrix) for a harness subclass of AbstractLineSearchOptimizer with direction
+   -gradient, for CG, for BFGS (two to three steps = two updates of the matrix, save/restore), for the first step of
+   L-BFGS (with and without box), and for SteepestDescent; tolerance 1e-9 after the first inexact floating-point
+   operation (CG's beta, BFGS' divisions).
+   Single calls of LineSearch::operator() (all three types) on a hooked objective whose values are a hash of the
+   evaluated point (small dyadic numbers, many ties) or linear up to a threshold: the harness logs the order and the
+   step lengths of all evaluations, tools/c10.py turns the log into the oracle, the extracted [linesearch] must return
+   exactly the same point, value and derivative, must ask for exactly as many trial steps as the code evaluated, and its
+   expansions 10*t must round to the logged ones.  Calls where a rounded comparison of the code (c1*t*gtd, c2*gtd)
+   decides differently from the exact one are counted and skipped.
    The comparison of a history stops where the exact model reaches the minimiser (zero gradient) and, once the
    run is inexact, where |gradient|^2 <= 1e-9 max(1,|value|): there the Armijo test of the C++ compares rounding noise.
    WHAT IS ONLY MONITORED on the C++ (all classes: SteepestDescent, Adam, CG, BFGS, L-BFGS with/without box,
@@ -49,9 +85,13 @@
    variants): value = re-evaluated objective and stored derivative = re-evaluated gradient (bitwise), finiteness,
    feasibility (BoxConstraintHandler::isFeasible, i.e. with its 1e-13 slack), monotonicity of line-search methods,
    minimiser reached within the step budget (CG/BFGS/L-BFGS on quadratics with condition <= 1e4),
-   save-at-k / restore into a fresh differently initialised instance / continue equality.
-   NOT COVERED: convergence proofs; TrustRegionNewton, which is abstract in this tree (its init takes a
-   non-const objective and does not override the pure virtual init): no object exists to check. *)
+   save-at-k / restore into a fresh differently initialised instance / continue equality; single line-search calls:
+   consistency, no increase, result independent of the previous stack contents.
+   NOT COVERED: convergence proofs; the numerics of the interpolation / Brent / golden-section steps (that the oracle's
+   proposals are the ones the formulas give; that wolfecubic's result satisfies the Wolfe conditions); the L-BFGS
+   two-loop recursion and dog-leg; CG's direction is not a descent direction as coded; TrustRegionNewton, which is
+   abstract in this tree (its init takes a non-const objective and does not override the pure virtual init): no
+   object exists to check. *)
 From Coq Require Import List QArith Qreduction Qabs Bool Arith.
 From SharkV Require Import C10Model C10Proofs C10LsModel C10LsProofs C10BfgsProofs.
 Import ListNotations.
